@@ -302,10 +302,13 @@ def s3(ctx, rep):
             rep.check(order, 'S3', key + ':filter-before-parse', 'skipped members are never parsed', f"{fn_name}: members are parsed before the skip filter — an unsupported construct under serde(skip) fails the run", site)
     sk = ctx.fn('is_skipped', file='parser.rs')
     site = {'file': sk['file'], 'line': sk['line']}
-    rep.check(not sk['returns'], 'S3', 'is_skipped:no-early-exit', 'single exit', f"is_skipped returns early (line {sk['returns'][0]['line'] if sk['returns'] else 0}, under `{vt.show(next((fr['c'] for fr in (sk['returns'][0]['guard'] if sk['returns'] else []) if fr.get('k') == 'if'), None))[:60]}`): on that path the skip markers are never consulted", site)
+    sk_value, why_not = pr.bool_result(sk)
+    rep.check(sk_value is not None, 'S3', 'is_skipped:no-early-exit', 'single exit, or early `return true/false` under one test (folded into the result)', f"is_skipped returns early ({why_not}; under `{vt.show(next((fr['c'] for fr in (sk['returns'][0]['guard'] if sk['returns'] else []) if fr.get('k') == 'if'), None))[:60]}`): on that path the skip markers are never consulted", site)
+    if sk_value is None:
+        sk_value = sk['tail']
     # C03 is about the skip markers; --target-os filtering is C13's business.  With accept_target_os ≡ true (no target
     # list) is_skipped must reduce to "some attribute carries the bare `skip` path under serde or typeshare".
-    red = no_target(sk['tail'])
+    red = no_target(sk_value)
     closed, open_ = pr.lookup_closed(ctx, 'is_skipped')
     want = {('SERDE', 'skip', 'Path'), ('TYPESHARE', 'skip', 'Path')}
     rep.check(closed == want and not open_, 'S3', 'is_skipped:skip-marker', 'bare `skip` under serde or typeshare', f"is_skipped looks for {sorted(closed)} {sorted(map(str, open_))} — expected exactly the bare path `skip` under #[serde(..)] and under #[typeshare(..)]", site)
